@@ -49,6 +49,8 @@ pub trait Prop: Sync + Send + 'static {
     fn real_vs_stub(&self) -> Value { json!({}) }
     /// does a (minimised) violating case fall into the region named by a known finding's matcher?
     fn matches_known(&self, _c: &Self::Case, _v: &Violation, _matcher: &str) -> bool { false }
+    /// fault / probe counters this engine is expected to hit; one stuck at zero is reported in the evidence (`zero_probes`)
+    fn expected_counters(&self) -> Vec<&'static str> { Vec::new() }
     fn sample(&self, c: &Self::Case) -> Value { serde_json::to_value(c).unwrap_or(Value::Null) }
 }
 
@@ -447,7 +449,8 @@ pub fn run_check<P: Prop>(prop: P, tier: Tier) -> ! {
         else if let Some(r) = k.strip_prefix("class.") { classes.insert(r.to_string(), json!(v)); }
         else { other.insert(k.to_string(), json!(v)); }
     }
-    let zero_probes: Vec<String> = Vec::new();
+    let zero_probes: Vec<String> = prop.expected_counters().into_iter().filter(|k| a.counters.get(k).copied().unwrap_or(0) == 0).map(|k| k.to_string()).collect();
+    if !zero_probes.is_empty() { outln!("[{}] note: counters stuck at zero in this run: {:?}", id, zero_probes); }
     let ev = json!({
         "property_id": id, "tier": tier.name(), "seed": seed as i64, "level": prop.level(),
         "coverage": {
